@@ -410,6 +410,9 @@ impl Sess {
                 }
             }
         }
+        // the machine is back up: what survived IS on the disk, the next power loss cannot take it
+        // (`Disk.reboot` = `powerLoss` then `settle` in the model)
+        for v in self.track.values_mut() { v.1 = v.0; }
     }
 
     /// pending trace events, kept for the next `trace` request
